@@ -21,8 +21,8 @@ enum Task {
     Panic,
     Aborted,
     HandlerPanics,
-    SlowVal(u64),
-    SlowPanic,
+    SlowVal(u64, tokio::sync::oneshot::Receiver<()>),
+    SlowPanic(tokio::sync::oneshot::Receiver<()>),
 }
 struct Go(Task);
 
@@ -47,12 +47,12 @@ impl Message<Go> for A {
                 h
             }
             Task::HandlerPanics => panic!("scripted handler panic"),
-            Task::SlowVal(v) => tokio::spawn(async move {
-                tokio::time::sleep(std::time::Duration::from_millis(150)).await;
+            Task::SlowVal(v, gate) => tokio::spawn(async move {
+                let _ = gate.await;
                 v
             }),
-            Task::SlowPanic => tokio::spawn(async move {
-                tokio::time::sleep(std::time::Duration::from_millis(150)).await;
+            Task::SlowPanic(gate) => tokio::spawn(async move {
+                let _ = gate.await;
                 panic!("scripted slow task panic")
             }),
         }
@@ -93,18 +93,21 @@ fn main() {
         // the ask succeeds and the actor ENDS (kill / stop) while the task is still running: the
         // result is still the task's own output or join error - the actor's fate after the reply
         // is not an input of ask_join
-        for (name, t, kill) in [("ok:val7", Task::SlowVal(7), true), ("ok:val7", Task::SlowVal(7), false),
-                                ("ok:panic", Task::SlowPanic, true)] {
+        for (name, panics, kill) in [("ok:val7", false, true), ("ok:val7", false, false), ("ok:panic", true, true)] {
+            let (tx, rx) = tokio::sync::oneshot::channel();
+            let t = if panics { Task::SlowPanic(rx) } else { Task::SlowVal(7, rx) };
             let (r, j) = rsactor::spawn::<A>(());
             let r2 = r.clone();
             let asker = tokio::spawn(async move { r2.ask_join(Go(t)).await });
-            tokio::time::sleep(std::time::Duration::from_millis(30)).await;
+            // a second request behind it: once it is answered the first handler has returned its handle
+            let _ = r.ask(Go(Task::Val(0))).await;
             if kill {
                 let _ = r.kill();
             } else {
                 let _ = r.stop().await;
             }
-            let _ = j.await;
+            let _ = j.await; // the actor has ended, the task is still gated
+            let _ = tx.send(());
             let res = asker.await.unwrap();
             println!("{} {}", name, show(res));
         }
